@@ -13,7 +13,7 @@ package handler
 //       hdr : plain | ws | sse | both | wsx | ssex (request headers; wsx/ssex are near misses, not exempt)
 //       dur : pos | zero | neg                     (TimeoutHandler(duration))
 //       act : h:<k>:<v> | c:<code> | w:<letters> | f | p:<v>
-//     => sret=<done|panic:<v>|blocked|stuck> atret=<view> results=<r,…> final=<view> fin=<done|panic:<v>|same>
+//     => sret=<done|panic:<v>|blocked|stuck> atret=<view> results=<r,…> final=<view> fin=<done|panic:<v>|same> leak=<0|1>
 //   race <kind> <spin> <act>*               free-running handler against a concurrent expiry
 //     => sret=… atret=<view> results=… final=<view>
 //   dl <parentMs|none> <durMs> <hdr>         deadline seen by the handler
@@ -213,6 +213,7 @@ func c04Rest(op []string) string {
 	kind, k, hdr, durTok := op[1], verifh.Atoi(op[2]), op[3], op[4]
 	acts := op[5:]
 	direct := hdr == "ws" || hdr == "sse" || hdr == "both" || durTok != "pos"
+	base := runtime.NumGoroutine()
 	parent := newC04Ctx()
 	gate := make(chan struct{})
 	ack := make(chan string)
@@ -293,7 +294,12 @@ func c04Rest(op []string) string {
 		fin, _ = c04WaitS(sdone, c04StuckBound(), "stuck")
 	}
 	final := c04View(rec)
-	return fmt.Sprintf("sret=%s atret=%s results=%s final=%s fin=%s", sret, atret, strings.Join(results, ","), final, fin)
+	// everything has ended: no goroutine of the wrapper (or of the work) may be left behind
+	leak := 0
+	if !verifh.SettleGoroutines(base, time.Second) {
+		leak = 1
+	}
+	return fmt.Sprintf("sret=%s atret=%s results=%s final=%s fin=%s leak=%d", sret, atret, strings.Join(results, ","), final, fin, leak)
 }
 
 // c04Race: the handler runs freely, the expiry is fired concurrently after `spin` yields.
